@@ -1,43 +1,51 @@
 package sam
 
 import (
-	"encoding/csv"
+	"bufio"
 	"io"
 	"iter"
 	"strings"
 
 	"github.com/fluhus/gostuff/aio"
-	"github.com/fluhus/gostuff/iterx"
 )
 
 // ReaderHeader iterates over SAM or header entries in a reader.
 func ReaderHeader(r io.Reader) iter.Seq2[SAMOrHeader, error] {
 	return func(yield func(SAMOrHeader, error) bool) {
-		csvReader := iterx.CSVReader(r, func(r *csv.Reader) {
-			r.Comma = '\t'
-			r.FieldsPerRecord = -1 // Allow variable number of fields.
-			r.LazyQuotes = true
-		})
-		for line, err := range csvReader {
-			// Error case.
-			if err != nil {
-				if !yield(SAMOrHeader{}, err) {
-					break
+		br := bufio.NewReader(r)
+		for {
+			// SAM fields are plain tab-separated text with no quoting,
+			// so lines are split by hand rather than with a CSV parser.
+			text, err := br.ReadString('\n')
+			if err != nil && err != io.EOF {
+				// Read error. A partially read line is discarded.
+				yield(SAMOrHeader{}, err)
+				return
+			}
+			last := err == io.EOF
+			text = strings.TrimSuffix(text, "\n")
+			text = strings.TrimSuffix(text, "\r")
+			if text == "" { // Empty lines are skipped.
+				if last {
+					return
 				}
 				continue
 			}
 			// Header line case.
-			if len(line) > 0 && strings.HasPrefix(line[0], "@") {
-				h := strings.Join(line, "\t")
+			if strings.HasPrefix(text, "@") {
+				h := text
 				if !yield(SAMOrHeader{H: &h}, nil) {
-					break
+					return
 				}
-				continue
+			} else {
+				// SAM line case.
+				s, err := parseLine(strings.Split(text, "\t"))
+				if !yield(SAMOrHeader{S: s}, err) {
+					return
+				}
 			}
-			// SAM line case.
-			s, err := parseLine(line)
-			if !yield(SAMOrHeader{S: s}, err) {
-				break
+			if last {
+				return
 			}
 		}
 	}
